@@ -13,4 +13,14 @@ def run(tier):
     if isinstance(res, int):
         return res
     ctx, cases, mo, io = res
+    # directed probes for a scenario the program language cannot express (an Acquire future polled by hand while the same
+    # task acquires again): regression for F17
+    probes = ["probe f17 0", "probe f17 1"]
+    po = ctx.run_impl("prog", probes)
+    ctx.evaluations += len(probes)
+    for c, o in zip(probes, po):
+        if not o.startswith("PROBE OK"):
+            ctx.violation({"layer": "prog", "cases": [c], "implementation_answer": o,
+                           "why": "a task that holds a queued, pending acquire on an unfair semaphore and then acquires a permit itself is never scheduled again (reblock_if_unfair blocks the running task)"})
+    ctx.dist("probes.f17", len(probes))
     return ctx.finish()
